@@ -158,7 +158,9 @@ def job_tree(res, rng, w, home, job):
     # metadata + location columns
     cols = ["path", "name", "ext", "dir", "abspath", "absdir", "size", "uid", "gid", "user", "group", "inode", "hardlinks", "blocks",
             "modified", "mode", "is_hidden", "is_empty"] + PERM_COLS + TYPE_COLS
-    rows, ctx = run_cols(res, w, home, cols, model.quote_lit(spelled) if " " in spelled else spelled, tz=tz)
+    trav = rng.choice(["", "", " dfs", " bfs", " dfs mindepth 1"])
+    res.cover("traversal", trav.strip() or "default")
+    rows, ctx = run_cols(res, w, home, cols, (model.quote_lit(spelled) if " " in spelled else spelled) + trav, tz=tz)
     if rows is None:
         return
     absmap = {e.abs: e for e in snap}
@@ -258,7 +260,7 @@ def job_tree(res, rng, w, home, job):
     if "size" not in mcols:
         mcols[1] = "size"
     mcols = ["path"] + mcols
-    rows, ctx = run_cols(res, w, home, mcols, "t", tz=tz, where=rng.choice([None, "size >= 0", "line_count >= 0 or size >= 0"]))
+    rows, ctx = run_cols(res, w, home, mcols, "t" + rng.choice(["", " dfs"]), tz=tz, where=rng.choice([None, "size >= 0", "line_count >= 0 or size >= 0"]))
     if rows is None:
         return
     for row in rows:
